@@ -71,7 +71,7 @@ def main(ctx, replay=None):
                        "(T,V) sample is one trace record; all non-trivial")
     ctx.assumptions += ["positive definiteness is decided by numpy eigvalsh in the harness and logged per sample",
                         "N_A, Rydberg, Bohr radius literals of cv/consts.py (rtol 1e-7)"]
-    nfields = 3 if ctx.tier == "quick" else 12
+    nfields = 3 if ctx.tier == "quick" else 120
     records = []
     G = consts.RY_BOHR3_TO_GPA
     for system in fillspec.SYSTEMS:
